@@ -112,3 +112,86 @@ pub fn brief(frame: &AMQPFrame) -> String {
         AMQPFrame::Body(c, b) => format!("B{}:{}B", c, b.len()),
     }
 }
+
+/// Independent (spec-derived) layout of the client->server methods amiquip emits: field
+/// kinds in order. 'S' u16, 'L' u32, 'Q' u64, 's' short string, 'B' one octet of packed
+/// bits, 'T' field table (u32 length prefixed).
+pub fn request_schema(class: u16, method: u16) -> Option<&'static str> {
+    Some(match (class, method) {
+        (10, 50) => "SsSS",   // connection.close
+        (20, 10) => "s",      // channel.open
+        (20, 40) => "SsSS",   // channel.close
+        (40, 10) => "SssBT",  // exchange.declare: passive durable auto-delete internal nowait
+        (40, 20) => "SsB",    // exchange.delete: if-unused nowait
+        (40, 30) => "SsssBT", // exchange.bind: nowait
+        (40, 40) => "SsssBT", // exchange.unbind: nowait
+        (50, 10) => "SsBT",   // queue.declare: passive durable exclusive auto-delete nowait
+        (50, 20) => "SsssBT", // queue.bind: nowait
+        (50, 30) => "SsB",    // queue.purge: nowait
+        (50, 40) => "SsB",    // queue.delete: if-unused if-empty nowait
+        (50, 50) => "SsssT",  // queue.unbind
+        (60, 10) => "LSB",    // basic.qos: global
+        (60, 20) => "SssBT",  // basic.consume: no-local no-ack exclusive nowait
+        (60, 30) => "sB",     // basic.cancel: nowait
+        (60, 40) => "SssB",   // basic.publish: mandatory immediate
+        (60, 70) => "SsB",    // basic.get: no-ack
+        (60, 80) => "QB",     // basic.ack: multiple
+        (60, 90) => "QB",     // basic.reject: requeue
+        (60, 110) => "B",     // basic.recover: requeue
+        (60, 120) => "QB",    // basic.nack: multiple requeue
+        (85, 10) => "B",      // confirm.select: nowait
+        _ => return None,
+    })
+}
+
+/// Walk a method payload with the schema; returns (class, method, bits octet if any) and
+/// checks that the payload is consumed exactly.
+pub fn request_bits(payload: &[u8]) -> Result<(u16, u16, Option<u8>), String> {
+    if payload.len() < 4 {
+        return Err("short payload".into());
+    }
+    let class = u16::from_be_bytes([payload[0], payload[1]]);
+    let method = u16::from_be_bytes([payload[2], payload[3]]);
+    let schema = request_schema(class, method).ok_or_else(|| format!("no schema for {}.{}", class, method))?;
+    let mut pos = 4usize;
+    let mut bits = None;
+    for k in schema.chars() {
+        let need = |n: usize, pos: usize| if pos + n <= payload.len() { Ok(()) } else { Err(format!("payload too short at {}", pos)) };
+        match k {
+            'S' => {
+                need(2, pos)?;
+                pos += 2;
+            }
+            'L' => {
+                need(4, pos)?;
+                pos += 4;
+            }
+            'Q' => {
+                need(8, pos)?;
+                pos += 8;
+            }
+            's' => {
+                need(1, pos)?;
+                let n = payload[pos] as usize;
+                need(1 + n, pos)?;
+                pos += 1 + n;
+            }
+            'B' => {
+                need(1, pos)?;
+                bits = Some(payload[pos]);
+                pos += 1;
+            }
+            'T' => {
+                need(4, pos)?;
+                let n = u32::from_be_bytes([payload[pos], payload[pos + 1], payload[pos + 2], payload[pos + 3]]) as usize;
+                need(4 + n, pos)?;
+                pos += 4 + n;
+            }
+            _ => unreachable!(),
+        }
+    }
+    if pos != payload.len() {
+        return Err(format!("{} trailing bytes after {}.{}", payload.len() - pos, class, method));
+    }
+    Ok((class, method, bits))
+}
